@@ -199,7 +199,7 @@ impl<'a> Tokenizer<'a> {
                 has_minus = true;
                 self.next();
             }
-            let exponent = self.consume_while(|ch| ch.is_numeric());
+            let exponent = self.consume_while(|ch| ch.is_digit(10));
             if exponent.is_empty() {
                 self.iter = iter_save;
                 self.current_pos = current_pos_save;
